@@ -1,8 +1,151 @@
-/- Model driver for C17 (stub: no ops yet). -/
+/-
+  Model driver for C17 (plots).  Line protocol: see DrvCore.  Imports only Mathlib-free files.
+  Requests are token streams read by a small state parser; lists are length-prefixed.
+-/
 import Ladybug.DrvCore
+import Ladybug.Model.Plot
+
+open Drv Plot
 
 namespace DrvC17
-def handle (_toks : List String) : String := "bad-op"
+
+abbrev P := StateT (List String) Option
+
+def tok : P String := fun s => match s with | [] => none | t :: r => some (t, r)
+def pNat : P Nat := do let t ← tok; (t.toNat? : Option Nat)
+def pInt : P Int := do let t ← tok; (t.toInt? : Option Int)
+def pRat : P Rat := do let t ← tok; (rat? t : Option Rat)
+def pBool : P Bool := do let t ← tok; (bool? t : Option Bool)
+
+def pMany {α : Type} (p : P α) : Nat → P (List α)
+  | 0 => pure []
+  | n + 1 => do let x ← p; let xs ← pMany p n; pure (x :: xs)
+
+def pList {α : Type} (p : P α) : P (List α) := do let n ← pNat; pMany p n
+
+def pEnd : P Unit := fun s => match s with | [] => some ((), []) | _ => none
+
+def showPErr : PErr → String
+  | .assert => "err:assert"
+  | .value => "err:value"
+  | .index => "err:index"
+  | .zero => "err:zero"
+
+def pAP : P AP := do
+  let a ← pNat; let b ← pNat; let c ← pNat; let d ← pNat; let e ← pNat; let f ← pNat
+  let ts ← pNat; let l ← pBool
+  pure ⟨a, b, c, d, e, f, ts, l⟩
+
+def showLists (ls : List (List String)) : String :=
+  joinSp (ls.map fun l => "| " ++ joinSp l)
+
+def showBar (b : Bar) : String := joinSp [showRat b.x, showRat b.y0, showRat b.w, showRat b.y1]
+
+structure Group where
+  cum : Bool
+  minV : Rat
+  maxV : Rat
+  datas : List (List Rat)
+
+def pGroup : P Group := do
+  let cum ← pBool; let mn ← pRat; let mx ← pRat
+  let datas ← pList (pList pRat)
+  pure ⟨cum, mn, mx, datas⟩
+
+/-- Thread `bar_count` through the data-type groups. -/
+def runGroups (f : Group → Nat → List (List Bar) × Nat) : Nat → List Group → List (List Bar)
+  | _, [] => []
+  | bc, g :: gs => let r := f g bc; r.1 ++ runGroups f r.2 gs
+
+def opHp : P String := do
+  let cont ← pBool; let rev ← pBool; let ap ← pAP
+  let moys ← pList pNat
+  pEnd
+  let data := if cont then ap.moys.zipIdx else moys.zipIdx
+  match hourlyFaces ap cont rev data with
+  | .error e => pure (showPErr e)
+  | .ok fs =>
+    pure (s!"ok {numX ap} {numY ap} {fs.length} " ++
+      joinSp (fs.map fun f => s!"{f.1} {f.2.1} {f.2.2}"))
+
+def opHist : P String := do
+  let bins ← pList pRat
+  let keys ← pList pRat
+  pEnd
+  match histogram (fun p : Rat × Nat => p.1) keys.zipIdx bins with
+  | .error e => pure (showPErr e)
+  | .ok h => pure ("ok " ++ showLists (h.map (·.map fun p => toString p.2)))
+
+def opCirc : P String := do
+  let hasR ← pBool
+  let rng ← if hasR then (do let lo ← pRat; let hi ← pRat; pure (some (lo, hi))) else pure none
+  let bins ← pList pRat
+  let keys ← pList pRat
+  pEnd
+  match histogramCircular (fun p : Rat × Nat => p.1) keys.zipIdx bins rng with
+  | .error e => pure (showPErr e)
+  | .ok h => pure ("ok " ++ showLists (h.map (·.map fun p => toString p.2)))
+
+def opWrose : P String := do
+  let n ← pNat; let isSpeed ← pBool
+  let samples ← pList (do let d ← pRat; let v ← pRat; pure (d, v))
+  pEnd
+  match windroseData n isSpeed samples with
+  | .error e => pure (showPErr e)
+  | .ok (h, z) =>
+    pure ("ok " ++ showLists (h.map (·.map showRat)) ++ s!" # {z} # " ++
+      joinSp ((prevailing (h.map (·.length))).map showRat))
+
+def pCfgHead : P (Rat × Rat × Rat × Rat × Bool) := do
+  let bx ← pRat; let by' ← pRat; let xd ← pRat; let yd ← pRat; let st ← pBool
+  pure (bx, by', xd, yd, st)
+
+def opMbars : P String := do
+  let (bx, by', xd, yd, st) ← pCfgHead
+  let nBars ← pNat
+  let groups ← pList pGroup
+  pEnd
+  let f := fun (g : Group) (bc : Nat) =>
+    let c : BarCfg := ⟨bx, by', xd, yd, st, g.cum, g.minV, g.maxV⟩
+    monthlyGroup c nBars bc g.datas (initLines c g.datas)
+  pure ("ok " ++ showLists ((runGroups f 0 groups).map (·.map showBar)))
+
+def opDbars : P String := do
+  let (bx, by', xd, yd, st) ← pCfgHead
+  let nBig ← pNat; let stDay ← pNat
+  let dpm ← pList pNat
+  let groups ← pList pGroup
+  pEnd
+  if nBig = 0 then pure "err:zero" else
+  let f := fun (g : Group) (bc : Nat) =>
+    let c : BarCfg := ⟨bx, by', xd, yd, st, g.cum, g.minV, g.maxV⟩
+    dailyGroup c nBig dpm stDay bc g.datas (initLines c g.datas)
+  pure ("ok " ++ showLists ((runGroups f 0 groups).map (·.map showBar)))
+
+def opPsych : P String := do
+  let minT ← pInt; let maxT ← pInt
+  let hours ← pList (do let t ← pRat; let rh ← pRat; pure (t, rh))
+  pEnd
+  let fs := psyFaces minT maxT hours
+  pure (s!"ok {fs.length} " ++ joinSp (fs.map fun f => s!"{f.1} {f.2.1} {f.2.2}"))
+
+def run (p : P String) (toks : List String) : String :=
+  match p toks with
+  | some (s, _) => s
+  | none => "bad-op"
+
+def handle (toks : List String) : String :=
+  match toks with
+  | "hp" :: r => run opHp r
+  | "hist" :: r => run opHist r
+  | "circ" :: r => run opCirc r
+  | "angles" :: r => run (do let n ← pNat; pEnd; pure ("ok " ++ joinSp ((angles n).map showRat))) r
+  | "wrose" :: r => run opWrose r
+  | "mbars" :: r => run opMbars r
+  | "dbars" :: r => run opDbars r
+  | "psych" :: r => run opPsych r
+  | _ => "bad-op"
+
 end DrvC17
 
 def main : IO Unit := Drv.run DrvC17.handle
